@@ -73,19 +73,27 @@ func observe(sc scenario) string {
 	for i := range sc.Steps {
 		r := runStepNoMetrics(st, &sc.Steps[i])
 		fmt.Fprintf(&sb, "%s|%s|%d|%s|%s|%v|", r.Op, r.Err, r.Code, r.Rsp, r.Value, r.Actions)
+		if r.Session != nil {
+			// the algorithms the session ended up with (keys depend on the console's random number)
+			fmt.Fprintf(&sb, "suite=%s/%s/%s|", r.Session["auth"], r.Session["integ"], r.Session["conf"])
+		}
 		for _, e := range r.BMC {
-			fmt.Fprintf(&sb, "%s,%v,%d,%d,%d,%d,%s,%d;", e.Kind, e.Accepted, e.SID, e.Seq, e.NetFn, e.Cmd, e.Data, e.CC)
+			fmt.Fprintf(&sb, "%s,%v,%d,%d,%d,%d,%s,%d", e.Kind, e.Accepted, e.SID, e.Seq, e.NetFn, e.Cmd, e.Data, e.CC)
+			if e.Kind == "opensession" {
+				// the proposal: tag, privilege level, console session ID, algorithm payloads
+				fmt.Fprintf(&sb, ",%s", e.Payload)
+			}
+			sb.WriteString(";")
 		}
 		sb.WriteString("\n")
 	}
 	return sb.String()
 }
 
+// runC19 runs the n workloads of (seed) concurrently and then once more one after the other in the same
+// process; the baseline they are compared with (each workload alone in a fresh process: c19solo) is
+// computed by the caller, so that a change which edits process-wide state cannot contaminate it.
 func runC19(n int, seed int64) string {
-	solo := make([]string, n)
-	for i := 0; i < n; i++ {
-		solo[i] = observe(workload(seed*100 + int64(i)))
-	}
 	conc := make([]string, n)
 	var wg sync.WaitGroup
 	for i := 0; i < n; i++ {
@@ -96,34 +104,20 @@ func runC19(n int, seed int64) string {
 		}(i)
 	}
 	wg.Wait()
-	diffs := []int{}
+	after := make([]string, n)
 	steps := 0
 	for i := 0; i < n; i++ {
-		steps += strings.Count(solo[i], "\n")
-		if solo[i] != conc[i] {
-			diffs = append(diffs, i)
-		}
+		after[i] = observe(workload(seed*100 + int64(i)))
+		steps += strings.Count(after[i], "\n")
 	}
-	out := map[string]any{"n": n, "seed": seed, "steps": steps, "differing": diffs}
-	if len(diffs) > 0 {
-		k := diffs[0]
-		a, b := strings.Split(solo[k], "\n"), strings.Split(conc[k], "\n")
-		for j := range a {
-			if j >= len(b) || a[j] != b[j] {
-				out["first_difference"] = map[string]string{"solo": a[j], "concurrent": func() string {
-					if j < len(b) {
-						return b[j]
-					}
-					return ""
-				}()}
-				break
-			}
-		}
-	}
-	js, _ := json.Marshal(out)
+	js, _ := json.Marshal(map[string]any{"n": n, "seed": seed, "steps": steps, "concurrent": conc, "after": after})
 	return string(js)
 }
 
 func init() {
 	register("c19", func(w []string) string { return runC19(atoi(w[1]), int64(atoi(w[2]))) })
+	register("c19solo", func(w []string) string {
+		js, _ := json.Marshal(map[string]any{"wseed": atoi(w[1]), "obs": observe(workload(int64(atoi(w[1]))))})
+		return string(js)
+	})
 }
